@@ -321,8 +321,8 @@ Section CompCons.
           rewrite X in Ea. discriminate.
         * rewrite jhas_alookup in H. destruct (alookup (u "extensions") mem) eqn:Ev; try discriminate.
           change (amem (u "extensions") setting) with (amem (u "extensions") setting). rewrite (Hin _ _ Ev). reflexivity.
-      + exfalso. unfold at_least_one in Ea. destruct (default_checked c); [discriminate|].
-        destruct (existsb _ (u0 :: l)); discriminate.
+      + exfalso. unfold at_least_one in Ea. destruct (default_checked c) as [|q0 qs]; [discriminate|].
+        destruct (existsb (fun p => amem p setting) (q0 :: qs)); discriminate.
     - (* CSkipBaseCheck *) reflexivity.
   Qed.
 End CompCons.
